@@ -134,7 +134,7 @@ def _chk_ref(args, res, old):
         return "reference has %d bins, the coverage files %d (or order differs)" % (len(got), len(exp))
     for r in ref.data.itertuples(index=False):
         loc, spr = want[(r.chromosome, r.start, r.end, r.gene)]
-        if abs(r.log2 - loc) > 1e-6 or abs(r.spread - spr) > 1e-6:
+        if not abs(r.log2 - loc) <= 1e-6 or not abs(r.spread - spr) <= 1e-6:
             return "bin %r: log2/spread = (%r, %r), expected biweight location/midvariance over samples + neutral pseudo-sample (%r, %r)" % (
                 (r.chromosome, r.start, r.end), r.log2, r.spread, loc, spr)
     # consequences
@@ -206,9 +206,9 @@ def _chk_levels(args, ref, old):
     x = float(np.median(d[d.chromosome == pref + "X"].log2)) - base
     y = float(np.median(d[d.chromosome == pref + "Y"].log2)) - base
     wx = -1.0 if old["male_ref"] else 0.0
-    if abs(x - wx) > 0.1:
+    if not abs(x - wx) <= 0.1:
         return "chrX sits %r from the autosomal baseline, expected %r (male reference %s, sexes %r)" % (x, wx, old["male_ref"], old["sexes"])
-    if abs(y - (-1.0)) > 0.1:
+    if not abs(y - (-1.0)) <= 0.1:
         return "chrY sits %r from the autosomal baseline, expected -1.0 (sexes %r)" % (y, old["sexes"])
 
 
@@ -231,7 +231,7 @@ def _gen_mismatch(rng, tier, i):
     f = files[rng.randrange(1, len(files))]
     arr = read_cna(f)
     df = arr.data.copy()
-    kind = rng.choice(["start", "end", "chromosome", "gene", "extra"])
+    kind = rng.choice(["start", "end", "chromosome", "chromosome_same_order", "chromosome_same_order", "gene", "extra"])
     k = rng.randrange(len(df))
     if kind == "start":
         df.loc[k, "start"] = int(df.loc[k, "start"]) + 1
@@ -240,6 +240,14 @@ def _gen_mismatch(rng, tier, i):
     elif kind == "chromosome":
         c = df.loc[k, "chromosome"]
         df["chromosome"] = df["chromosome"].replace({c: c + "b"})
+    elif kind == "chromosome_same_order":
+        # only the chromosome column differs and the rows keep their order: other naming style, or the last
+        # chromosome under another name
+        if rng.random() < 0.5:
+            df["chromosome"] = [c[3:] if c.startswith("chr") else "chr" + c for c in df["chromosome"]]
+        else:
+            last = df["chromosome"].iat[-1]
+            df["chromosome"] = df["chromosome"].replace({last: last + "_random"})
     elif kind == "gene":
         df.loc[k, "gene"] = "OTHER"
     else:
@@ -335,7 +343,7 @@ def _chk_flat(args, ref, old):
         lg, gc, lo = want[(r.chromosome, r.start, r.end)]
         if r.log2 != lg:
             return "flat log2 of %s bin is %r, expected %r (male reference %s)" % (r.chromosome, r.log2, lg, old["male_ref"])
-        if abs(r.gc - gc) > 1e-12 or abs(r.rmask - lo) > 1e-12:
+        if not abs(r.gc - gc) <= 1e-12 or not abs(r.rmask - lo) <= 1e-12:
             return "bin %r (%r): gc/rmask = (%r, %r), expected G+C fraction / lowercase fraction of unambiguous bases (%r, %r)" % (
                 (r.chromosome, r.start, r.end), old["seqs"][r.chromosome][r.start:r.end], r.gc, r.rmask, gc, lo)
 
